@@ -219,6 +219,36 @@ def soup_shard(shard):
     return p
 
 
+CTRL_CHARS = ["\x0b", "\x0c", "\x1c", "\x1d", "\x1e", "\x85", "\u2028", "\u2029"]
+
+
+def ctrl_shard(shard):
+    """Characters at which str.splitlines() - but no editor - ends a line, inside comments and string literals: whatever the
+    outcome, an error must name a line the text has (genuine defect D9: 'nop # a\\x0cb' was reported at line 2 of one line)."""
+    arch = shard
+    ok = "add x1, x1, x1" if arch == "riscv" else "INC"
+    p = Partial()
+    for c in CTRL_CHARS:
+        texts = [f"{ok} # x{c}y", f"{ok}\n{ok} # x{c}y\n", f"{ok} # x{c}\n", f"# {c}{c} y\n{ok}\n", f"{ok} # a{c}b{c}c\nfoo bar\n"]
+        if arch == "riscv":
+            texts += [f'.data\ns: .string "a{c}b"\n.text\n{ok}\n', f'.data\ns: .string "a{c}b"\n.text\nfoo\n']
+        for text in texts:
+            p.evaluations += 1
+            p.nontrivial += 1
+            p.counters["control-character-in-a-comment-or-string"] += 1
+            d = classify_load(arch, text)
+            if d is None and "foo" not in text:
+                # these texts are well-formed: they must load
+                sim = RiscvSimulation() if arch == "riscv" else ToySimulation()
+                try:
+                    sim.load_program(text)
+                except Exception as e:  # noqa
+                    d = ("comment-changes-the-outcome", f"{type(e).__name__} at line {getattr(e, 'line_number', None)} for a well-formed text")
+            if d:
+                p.violation(dict(oracle="load-error-typing", arch=arch, field=d[0], fault="control-character"), dict(kind="text", arch=arch, text=text), f"{arch} {text!r}: {d[1]}", size=(len(text),))
+    return p
+
+
 def fit_cases():
     out = []
     out.append(("riscv", "nop\n" * 4096, False, "4096 instructions fit"))
@@ -471,6 +501,10 @@ def run(ctx):
         t0 = time.time()
         part = pmap(soup_shard, [(arch, n, f) for arch in ("riscv", "toy") for f in range(14)])
         ctx.space(f"token-soups-{n}", part, t0, vocabulary=14, tokens=n)
+    t0 = time.time()
+    part = pmap(ctrl_shard, ["riscv", "toy"])
+    ctx.space("control-characters-in-comments-and-strings", part, t0, characters=[repr(c) for c in CTRL_CHARS])
+    ctx.require("control-character-in-a-comment-or-string")
     t0 = time.time()
     part = pmap(fit_shard, list(range(len(fit_cases()))))
     ctx.space("does-not-fit", part, t0)
